@@ -688,6 +688,187 @@ theorem convert_rejects_fn1 {f : String} {a : E} {tgt : Option Container} {x : K
 
 end rejects
 
+/-! ### every dimensionally invalid expression is rejected (general form, by induction)
+
+    Sorts: `arithS` — terms built from the operators that have a physical value (everything except `floor`/`ceiling`,
+    `oo`/`nan`, an empty Piecewise and unknown constructs), with conditions in condition position; `boolS` — conditions
+    (relations between such terms, `And`/`Or`/`Not`, `true`/`false`). -/
+
+mutual
+def arithS : E → Bool
+  | .qty _ _ | .cf _ _ | .var _ | .deriv _ _ | .int _ | .rat _ | .flt _ | .pi | .e => true
+  | .add a b | .mul a b | .pow a b | .fnN _ a b => arithS a && arithS b
+  | .abs a | .fn1 _ a => arithS a
+  | .ite c t el => boolS c && arithS t && (decide (el = .undef) || arithS el)
+  | _ => false
+def boolS : E → Bool
+  | .rel _ a b => arithS a && arithS b
+  | .and a b | .or a b => boolS a && boolS b
+  | .not a => boolS a
+  | .tt | .ff => true
+  | _ => false
+end
+
+section valid
+variable (I : Interp K) (reg : Registry) (Γ : VarEnv) (ρ : Nat → K) (δ : Nat → Nat → K)
+
+theorem dims_agree {a b : E} {ta : Option Container} {ra rb : CR} {x y : K} {d d' : Dims}
+    (hra : convert reg Γ a ta = .ok ra) (hrb : convert reg Γ b (some ra.u) = .ok rb)
+    (ha : evalPhys I reg Γ ρ δ a = some (x, d)) (hb : evalPhys I reg Γ ρ δ b = some (y, d')) :
+    PMap.beq d d' = true := by
+  have h1 := (convert_value I reg Γ ρ δ hra ha).2
+  have h2 := (convert_value I reg Γ ρ δ hrb hb).2
+  rw [convert_target hrb] at h2
+  exact beq_iff_equiv.mpr (h1.symm.trans h2)
+
+theorem dimless_isZero {a : E} {ra : CR} {x : K} {d : Dims}
+    (hra : convert reg Γ a (some []) = .ok ra) (ha : evalPhys I reg Γ ρ δ a = some (x, d)) :
+    PMap.isZero d = true := by
+  have h1 := (convert_value_target I reg Γ ρ δ hra ha).2
+  exact (Infer.isZero_iff d).mpr (h1.symm.trans (dimsOf_nil reg))
+
+/-- a successful conversion certifies that the expression denotes a physical quantity (a condition: a truth value) -/
+theorem convert_ok_valid : ∀ ex : E,
+    (arithS ex = true → ∀ tgt r, convert reg Γ ex tgt = .ok r → ∃ x d, evalPhys I reg Γ ρ δ ex = some (x, d)) ∧
+    (boolS ex = true → ∀ tgt r, convert reg Γ ex tgt = .ok r → ∃ p, physB I reg Γ ρ δ ex = some p) := by
+  intro ex
+  induction ex with
+  | qty v u => exact ⟨fun _ _ _ _ => ⟨_, _, rfl⟩, fun h => (by simp [boolS] at h)⟩
+  | cf s u => exact ⟨fun _ _ _ _ => ⟨_, _, rfl⟩, fun h => (by simp [boolS] at h)⟩
+  | int n => exact ⟨fun _ _ _ _ => ⟨_, _, rfl⟩, fun h => (by simp [boolS] at h)⟩
+  | rat q => exact ⟨fun _ _ _ _ => ⟨_, _, rfl⟩, fun h => (by simp [boolS] at h)⟩
+  | flt q => exact ⟨fun _ _ _ _ => ⟨_, _, rfl⟩, fun h => (by simp [boolS] at h)⟩
+  | pi => exact ⟨fun _ _ _ _ => ⟨_, _, rfl⟩, fun h => (by simp [boolS] at h)⟩
+  | e => exact ⟨fun _ _ _ _ => ⟨_, _, rfl⟩, fun h => (by simp [boolS] at h)⟩
+  | tt => exact ⟨fun h => (by simp [arithS] at h), fun _ _ _ _ => ⟨_, rfl⟩⟩
+  | ff => exact ⟨fun h => (by simp [arithS] at h), fun _ _ _ _ => ⟨_, rfl⟩⟩
+  | var i =>
+      refine ⟨fun _ tgt r h => ?_, fun h => (by simp [boolS] at h)⟩
+      obtain ⟨vi, hvi, _⟩ := convert_var_inv h
+      simp only [evalPhys, hvi]; exact ⟨_, _, rfl⟩
+  | deriv v t =>
+      refine ⟨fun _ tgt r h => ?_, fun h => (by simp [boolS] at h)⟩
+      obtain ⟨vv, vt, hvv, hvt, _⟩ := convert_deriv_inv h
+      simp only [evalPhys, hvv, hvt]; exact ⟨_, _, rfl⟩
+  | mul a b iha ihb =>
+      refine ⟨fun hs tgt r h => ?_, fun h => (by simp [boolS] at h)⟩
+      simp only [arithS, Bool.and_eq_true] at hs
+      obtain ⟨ra, rb, hra, hrb, _⟩ := convert_mul_inv h
+      obtain ⟨x, d, ha⟩ := iha.1 hs.1 _ _ hra
+      obtain ⟨y, d', hb⟩ := ihb.1 hs.2 _ _ hrb
+      simp only [evalPhys, ha, hb]; exact ⟨_, _, rfl⟩
+  | add a b iha ihb =>
+      refine ⟨fun hs tgt r h => ?_, fun h => (by simp [boolS] at h)⟩
+      simp only [arithS, Bool.and_eq_true] at hs
+      obtain ⟨ra, rb, hra, hrb, _⟩ := convert_add_inv h
+      rw [getD_target hra] at hrb
+      obtain ⟨x, d, ha⟩ := iha.1 hs.1 _ _ hra
+      obtain ⟨y, d', hb⟩ := ihb.1 hs.2 _ _ hrb
+      simp only [evalPhys, ha, hb, dims_agree I reg Γ ρ δ hra hrb ha hb, if_true]; exact ⟨_, _, rfl⟩
+  | pow b x ihb ihx =>
+      refine ⟨fun hs tgt r h => ?_, fun h => (by simp [boolS] at h)⟩
+      simp only [arithS, Bool.and_eq_true] at hs
+      obtain ⟨rx, q, rb, hrx, hq, hrb, _⟩ := convert_pow_inv h
+      have hw := closed_not_converted x _ rx q hrx hq
+      have hex : rx.e = x := (convert_ident hrx).2 hw
+      rw [hex] at hq
+      obtain ⟨xb, db, hb⟩ := ihb.1 hs.1 _ _ hrb
+      obtain ⟨xx, dx, hx⟩ := ihx.1 hs.2 _ _ hrx
+      have hz := dimless_isZero I reg Γ ρ δ hrx hx
+      have hv : xx = (q : K) := by
+        have h1 := (dimless_value (convert_sound I reg Γ ρ δ x).1 hrx hx).1
+        rw [hex] at h1
+        rw [← h1]; exact evalClosed_evalNum I ρ δ x q hq
+      simp only [evalPhys, hb, hx, hq, hz, hv, and_self, if_true]; exact ⟨_, _, rfl⟩
+  | abs a iha =>
+      refine ⟨fun hs tgt r h => ?_, fun h => (by simp [boolS] at h)⟩
+      simp only [arithS] at hs
+      obtain ⟨ra, hra, _⟩ := convert_abs_inv h
+      obtain ⟨x, d, ha⟩ := iha.1 hs _ _ hra
+      simp only [evalPhys, ha]; exact ⟨_, _, rfl⟩
+  | fn1 f a iha =>
+      refine ⟨fun hs tgt r h => ?_, fun h => (by simp [boolS] at h)⟩
+      simp only [arithS] at hs
+      obtain ⟨_, ra, hra, _⟩ := convert_fn1_inv h
+      obtain ⟨x, d, ha⟩ := iha.1 hs _ _ hra
+      simp only [evalPhys, ha, dimless_isZero I reg Γ ρ δ hra ha, if_true]; exact ⟨_, _, rfl⟩
+  | fnN f a b iha ihb =>
+      refine ⟨fun hs tgt r h => ?_, fun h => (by simp [boolS] at h)⟩
+      simp only [arithS, Bool.and_eq_true] at hs
+      obtain ⟨_, ra, rb, hra, hrb, _⟩ := convert_fnN_inv h
+      obtain ⟨x, d, ha⟩ := iha.1 hs.1 _ _ hra
+      obtain ⟨y, d', hb⟩ := ihb.1 hs.2 _ _ hrb
+      simp only [evalPhys, ha, hb, dimless_isZero I reg Γ ρ δ hra ha, dimless_isZero I reg Γ ρ δ hrb hb,
+        and_self, if_true]
+      exact ⟨_, _, rfl⟩
+  | ite c t el ihc iht ihe =>
+      refine ⟨fun hs tgt r h => ?_, fun h => (by simp [boolS] at h)⟩
+      simp only [arithS, Bool.and_eq_true, Bool.or_eq_true, decide_eq_true_eq] at hs
+      obtain ⟨rt, rc, hrt, hrc, hcase⟩ := convert_ite_inv h
+      obtain ⟨p, hc⟩ := ihc.2 hs.1.1 _ _ hrc
+      obtain ⟨x, d, ht⟩ := iht.1 hs.1.2 _ _ hrt
+      rcases hcase with ⟨hel, _⟩ | ⟨hel, re, hre, _⟩
+      · simp only [evalPhys, hc, ht, hel, if_true]; exact ⟨_, _, rfl⟩
+      · rw [getD_target hrt] at hre
+        have hse : arithS el = true := by
+          rcases hs.2 with h0 | h0
+          · exact absurd h0 hel
+          · exact h0
+        obtain ⟨y, d', he⟩ := ihe.1 hse _ _ hre
+        simp only [evalPhys, hc, ht, hel, if_false, he, dims_agree I reg Γ ρ δ hrt hre ht he, if_true]
+        exact ⟨_, _, rfl⟩
+  | rel rr a b iha ihb =>
+      refine ⟨fun h => (by simp [arithS] at h), fun hs tgt r h => ?_⟩
+      simp only [boolS, Bool.and_eq_true] at hs
+      obtain ⟨_, ra, rb, hra, hrb, _⟩ := convert_rel_inv h
+      obtain ⟨x, d, ha⟩ := iha.1 hs.1 _ _ hra
+      obtain ⟨y, d', hb⟩ := ihb.1 hs.2 _ _ hrb
+      simp only [physB, ha, hb, dims_agree I reg Γ ρ δ hra hrb ha hb, if_true]; exact ⟨_, rfl⟩
+  | and a b iha ihb =>
+      refine ⟨fun h => (by simp [arithS] at h), fun hs tgt r h => ?_⟩
+      simp only [boolS, Bool.and_eq_true] at hs
+      obtain ⟨_, ra, rb, hra, hrb, _⟩ := convert_and_inv h
+      obtain ⟨p, ha⟩ := iha.2 hs.1 _ _ hra
+      obtain ⟨p', hb⟩ := ihb.2 hs.2 _ _ hrb
+      simp only [physB, ha, hb]; exact ⟨_, rfl⟩
+  | or a b iha ihb =>
+      refine ⟨fun h => (by simp [arithS] at h), fun hs tgt r h => ?_⟩
+      simp only [boolS, Bool.and_eq_true] at hs
+      obtain ⟨_, ra, rb, hra, hrb, _⟩ := convert_or_inv h
+      obtain ⟨p, ha⟩ := iha.2 hs.1 _ _ hra
+      obtain ⟨p', hb⟩ := ihb.2 hs.2 _ _ hrb
+      simp only [physB, ha, hb]; exact ⟨_, rfl⟩
+  | not a iha =>
+      refine ⟨fun h => (by simp [arithS] at h), fun hs tgt r h => ?_⟩
+      simp only [boolS] at hs
+      obtain ⟨_, ra, hra, _⟩ := convert_not_inv h
+      obtain ⟨p, ha⟩ := iha.2 hs _ _ hra
+      simp only [physB, ha]; exact ⟨_, rfl⟩
+  | _ => exact ⟨fun h => (by simp [arithS] at h), fun h => (by simp [boolS] at h)⟩
+
+/-- **rejection, general form**: an expression (of the operators with a physical value) that denotes no physical
+    quantity — operands of a sum, pieces of a Piecewise or comparands of different dimension anywhere inside it, a
+    function or exponent argument that is not dimensionless — is never converted: the call raises -/
+theorem convert_rejects {ex : E} (hs : arithS ex = true) (hn : evalPhys I reg Γ ρ δ ex = none)
+    (tgt : Option Container) : ∃ err, convert reg Γ ex tgt = .error err := by
+  cases hc : convert reg Γ ex tgt with
+  | error err => exact ⟨err, rfl⟩
+  | ok r =>
+      obtain ⟨x, d, hp⟩ := (convert_ok_valid I reg Γ ρ δ ex).1 hs tgt r hc
+      rw [hn] at hp; cases hp
+
+/-- **headline form of (a)**: for every expression of the operators that have a physical value, a successful
+    conversion certifies that the expression denotes a physical quantity, and the result read as plain numbers in
+    the reported unit is that quantity — no side condition left -/
+theorem convert_preserves {ex : E} (hs : arithS ex = true) {tgt : Option Container} {r : CR}
+    (h : convert reg Γ ex tgt = .ok r) :
+    ∃ x d, evalPhys I reg Γ ρ δ ex = some (x, d) ∧
+      evalNum I ρ δ r.e * I.φ (scaleOf reg r.u) = x ∧ dimsOf reg r.u ≃ d := by
+  obtain ⟨x, d, hp⟩ := (convert_ok_valid I reg Γ ρ δ ex).1 hs tgt r h
+  exact ⟨x, d, hp, convert_value I reg Γ ρ δ h hp⟩
+
+end valid
+
 /-- at a leaf between known units the error is exactly UnitConversionError -/
 theorem convert_rejects_leaf {reg : Registry} {Γ : VarEnv} {v : Rat} {u t : Container}
     (hk : allKnown reg u = true) (hk' : allKnown reg t = true) (hne : ¬ dimsOf reg u ≃ dimsOf reg t) :
@@ -748,5 +929,16 @@ example : convert builtinRegistry [] (.add (.qty 1 [("volt", 1)]) (.qty 2 [("sec
 
 example : convert builtinRegistry [] (.qty 1 [("volt", 1)]) (some [("furlong", 1)]) =
     .error (.otherException "UndefinedUnitError") := by decide +kernel
+
+/-- the semantic hypotheses are satisfiable (`Sem.ratInterp`), and the headline theorem applies to a concrete conversion
+    with a real factor -/
+example : ∃ x d, evalPhys ratInterp regMV [⟨[("mV", 1)], none⟩, ⟨[("volt", 1)], none⟩] (fun _ => 7) (fun _ _ => 0)
+      (.add (.var 0) (.var 1)) = some (x, d) :=
+  have h : convert regMV [⟨[("mV", 1)], none⟩, ⟨[("volt", 1)], none⟩] (.add (.var 0) (.var 1)) none =
+      .ok ⟨.add (.var 0) (.mul (.cf [(2, 3), (5, 3)] [("mV", 1), ("volt", -1)]) (.var 1)), true, [("mV", 1)], false⟩ := by
+    decide +kernel
+  let ⟨x, d, hp, _⟩ := convert_preserves ratInterp regMV _ (fun _ => 7) (fun _ _ => 0) (ex := .add (.var 0) (.var 1))
+    (by simp [arithS]) h
+  ⟨x, d, hp⟩
 
 end Cellml.Props.C05
